@@ -93,7 +93,7 @@ func validFilter(f string) bool {
 func (r *refClient) check(ev hx.Group, ok bool, pkts [][]byte, cbs []cbRec) []string {
 	var fails []string
 	fail := func(format string, a ...interface{}) { fails = append(fails, fmt.Sprintf(format, a...)) }
-	var wantPkts []string     // acknowledgements the client must write in this event
+	var wantPkts []string         // acknowledgements the client must write in this event
 	wantCalls := map[string]int{} // publish callbacks: "cb topic payload" -> count
 	f21 := false
 
